@@ -401,7 +401,9 @@ impl Bucket {
         refill_period: time::Duration,
     ) -> Result<Self, InvalidBucketConfig> {
         // milliseconds is the tokio timer resolution
-        let refill = bytes_per_second.saturating_mul(refill_period.as_millis() as i64) / 1000;
+        let refill =
+            (bytes_per_second as i128).saturating_mul(refill_period.as_millis() as i128) / 1000;
+        let refill = i64::try_from(refill).unwrap_or(i64::MAX);
         ensure!(
             max > 0 && bytes_per_second > 0 && refill_period.as_millis() as u32 > 0 && refill > 0,
             InvalidBucketConfig {
@@ -444,10 +446,9 @@ impl Bucket {
             return;
         }
 
-        self.fill = self
-            .fill
-            .saturating_add(refill_periods as i64 * self.refill);
-        self.fill = std::cmp::min(self.fill, self.max);
+        // Computed in i128: `refill_periods * refill` can exceed the i64 range for extreme rates.
+        let fill = self.fill as i128 + refill_periods as i128 * self.refill as i128;
+        self.fill = std::cmp::min(fill, self.max as i128) as i64;
         self.last_fill += self.refill_period * refill_periods;
     }
 
@@ -471,7 +472,7 @@ impl Bucket {
 
         let missing = self.fill.saturating_neg();
 
-        let periods_needed = (missing / self.refill) + 1;
+        let periods_needed = (missing / self.refill).saturating_add(1);
         let periods_needed = u32::try_from(periods_needed).unwrap_or(u32::MAX);
 
         Err(self.last_fill + periods_needed * self.refill_period)
